@@ -538,3 +538,44 @@ def check_C18(ctx):
                                           "the same script both ways asks for two copies)",
                                           "101 bytes = one key witness [vkey(32), signature(64)] with its CBOR heads"]
     builder_family(ctx, n_random=15000 if ctx.thorough else 1200, mc_sample=None if ctx.thorough else 400, n_plutus=8000 if ctx.thorough else 900, corrupt=_corrupt_full_size)
+
+
+# ------------------------------------------------------------------------------- C11
+
+@prop("C11", "scenario = one byte string handed to the strict address parser and, embedded in a legacy and a map-form output, to the "
+             "lenient path; all 256 header bytes x lengths 0..80 x 4 (quick) / 6 content fills and pointer triples over limb-boundary "
+             "values in minimal / non-minimal / overflowing / unterminated / trailing encodings from MC_Address, plus seeded random "
+             "Shelley addresses and Byron addresses (5 protocol magics) with envelope mutations; non-trivial = the validator classified "
+             "the bytes itself and compared every reported field; distinct = (header type, length, verdict, reason)")
+def check_C11(ctx):
+    ctx.assumptions += ["CRC32 is uninterpreted in TLA+; Byron acceptance is decided from the spec-extracted payload and checksum evaluated by zlib.crc32 (CRCCHK records)",
+                        "Bech32 / Base58 text forms are checked by round trip through the library, not predicted (DESIGN AddressText not built)",
+                        "a non-minimally encoded pointer natural is neither required to be accepted nor rejected by the strict parser; embedded it must be written back unchanged"]
+    if ctx.replay:
+        run = ctx.run_replay()
+        return
+    cfg = "MC_Address_thorough.cfg" if ctx.thorough else "MC_Address.cfg"
+    r = ctx.mc("MC_Address", cfg=cfg, workers=8)
+    p = ctx.write_scn(r.by("SCN"))
+    run = ctx.drive("address", scn=p, n=40000 if ctx.thorough else 4000)
+
+    def corrupt(recs, rnd):
+        idx = [i for i, r in enumerate(recs) if isinstance(r.get("strict"), dict) and r["strict"].get("ok") and "net" in r["strict"]]
+        if not idx:
+            return False
+        for i in idx[:50]:
+            recs[i]["strict"]["net"] = (recs[i]["strict"]["net"] + 1) % 16
+        return True
+    em = ctx.validate("Trace_Address", run, shards=16, corrupt=corrupt)
+    if em is not None and not ctx.selftest:
+        import zlib
+        n = 0
+        for e in em:
+            if e.get("t") == "CRCCHK":
+                n += 1
+                crc_ok = list(zlib.crc32(bytes(e["pre"])).to_bytes(4, "big")) == e["crc"]
+                if e["accepted"] and not crc_ok:
+                    ctx.verdict.add_fail("Strict/byron-accepted-with-wrong-checksum", e["sc"], {"addr": e["addr"]}, ctx._replay_of(e["sc"]))
+                if crc_ok and not e["accepted"]:
+                    ctx.verdict.add_fail("Strict/byron-rejected-valid-address", e["sc"], {"addr": e["addr"]}, ctx._replay_of(e["sc"]))
+        ctx.extra["byron_checksums_evaluated_with_zlib"] = n
